@@ -65,6 +65,9 @@ def check_declared_width(prog: Program, res: Result, rule: str) -> None:
         """How the array denoted by v is known to have the declared sample type (None: it may still be the caller's dtype)."""
         if isinstance(v, ast.Name):
             return conv.get(v.id)
+        if isinstance(v, ast.IfExp):
+            a_, b_ = how_of(v.body, conv), how_of(v.orelse, conv)
+            return f"{a_} / {b_}" if a_ is not None and b_ is not None else None
         if isinstance(v, ast.Call):
             d = dotted(v.func) or ""
             if isinstance(v.func, ast.Attribute) and v.func.attr == "astype" and v.args and _is_declared_dtype(v.args[0]):
